@@ -251,7 +251,7 @@ def inputs_for(spec, rnd):
     return out if spec["nargs"] else [[]]
 
 
-PASSES = ["canonicalize", "cse", "constant-fold-interp", "test-constant-folding", "canonicalize,cse"]
+PASSES = ["canonicalize", "cse", "constant-fold-interp", "test-constant-folding", "test-specialised-constant-folding", "canonicalize,cse"]
 
 
 @rechecked
@@ -298,8 +298,9 @@ def check_program(spec, pipeline, seed):
             return {"pipeline": pipeline, "program": before, "after": str(m), "inputs": repr(args), "why": "rewritten program is undefined on an input where the original is defined",
                     "key": f"C14/{pipeline}/results"}
         if got != exp:
-            return {"pipeline": pipeline, "program": before, "after": str(m), "inputs": repr(args), "returned": repr(got), "expected": repr(exp),
-                    "key": f"C14/{pipeline}/results"}
+            unsigned_cmpi = any(o[0] == "cmpi" and o[1] >= 6 for o in spec["ops"])
+            return {"pipeline": pipeline, "program": before, "after": str(m), "arguments": repr(args), "returned": repr(got), "expected": repr(exp),
+                    "inputs": {"program_has_an_unsigned_cmpi": unsigned_cmpi}, "key": f"C14/{pipeline}/results"}
     return None
 
 
@@ -314,9 +315,67 @@ def explore(tier, seed):
         for p in PASSES:
             cases += 1
             f = check_program(spec, p, seed)
-            if f and f["key"] not in seen:
-                seen.add(f["key"])
+            k = (f["key"], tuple(sorted((f.get("inputs") or {}).items()))) if f else None
+            if f and k not in seen:
+                seen.add(k)
                 fails.append(f)
     return {"cases": cases, "failures": fails, "exhaustive": False,
             "bound": f"{n} seeded single-block programs (<= 6 arith ops of 20 integer kinds, cmpi, select, 4 float kinds; types i1/i8/i32/i64/index/f32/f64; boundary "
                      f"constants) x pipelines {PASSES}; evaluated before/after on 12 boundary input vectors with an independent reference evaluator"}
+
+
+# ------------------------------------------------------------------ replay helpers for the deductive kernels
+@rechecked
+def check_fold(opname, w, a, b):
+    """py_operation of the real class vs the reference semantics on one input."""
+    from xdsl.dialects import arith
+
+    cls = next(c for c in vars(arith).values() if isinstance(c, type) and getattr(c, "name", None) == opname)
+    r = cls.py_operation(a, b)
+    if r is None:
+        return None
+    M = 1 << w
+    try:
+        exp = ev_int(opname.split(".")[1], w, a % M, b % M)
+    except Poison:
+        return None
+    if r % M != exp:
+        return {"class": cls.__name__, "width": w, "lhs": a, "rhs": b, "py_operation": r, "expected bits": exp}
+    return None
+
+
+@rechecked
+def check_right_element(opname, which, w, c, x):
+    from xdsl.dialects import arith
+    from xdsl.dialects.builtin import IntegerAttr, IntegerType
+
+    cls = next(k for k in vars(arith).values() if isinstance(k, type) and getattr(k, "name", None) == opname)
+    attr = IntegerAttr(c, IntegerType(w))
+    got = getattr(cls, "is_right_" + which)(attr)
+    if not got:
+        return None
+    M = 1 << w
+    try:
+        val = ev_int(opname.split(".")[1], w, x % M, c % M)
+    except Poison:
+        return None
+    target = x % M if which == "unit" else c % M
+    if val != target:
+        return {"class": cls.__name__, "width": w, "constant": c, "operand bits": x, f"is_right_{which}": True, "x op c": val, "expected": target}
+    return None
+
+
+@rechecked
+def check_float_fold(op, x, y):
+    from xdsl.dialects import arith
+    from xdsl.dialects.builtin import FloatAttr, f64
+    from xdsl.transforms.canonicalization_patterns.arith import _fold_const_operation
+
+    r = _fold_const_operation(getattr(arith, op), FloatAttr(x, f64), FloatAttr(y, f64))
+    if r is None:
+        return {"op": op, "why": "not folded"}
+    got = r.value.value.data
+    exp = ev_float({"AddfOp": "addf", "SubfOp": "subf", "MulfOp": "mulf", "DivfOp": "divf"}[op], "f64", x, y)
+    if fbits(got) != fbits(exp):
+        return {"op": op, "x": repr(x), "y": repr(y), "folded": repr(got), "ieee754": repr(exp)}
+    return None
